@@ -47,9 +47,9 @@ def run(chk, repo):
     chk.attempt(text_adapter_form, chk, repo, L, leaves, covered_by="adapter_values")
     from ..shapes_rules import link_tables
     link_tables(chk, repo, L, "C16")
-    from .common_rules import parse_and_transform, to_dict_contract
+    from .common_rules import parse_and_transform, to_dict_contract, to_dict_rules
     chk.rule("C16-V5", "the volume directory is parsed with volume_directory_record, converted by to_dict and transformed by transform_record", 4)
-    to_dict_contract(chk, repo, "C16-V5")
+    to_dict_rules(chk, repo, "C16-V5")
     parse_and_transform(chk, repo, "C16-V5", "ceos_alos2.volume_directory.io", "volume_directory_record", "transform_record", "open_volume_directory")
     chk.attempt(opener_contents, chk, repo)
 
